@@ -14,6 +14,8 @@ import (
 // seeded RNG and enriching the abstract message with the digests of what was
 // chosen (so the trace carries them).
 type Concretiser struct {
+	InDig uint64   // running digest of the bytes produced
+	Ins   []uint64 // its value after each message
 	X        *Exec
 	Rng      *rand.Rand
 	stmtOids map[string][]int // statement name -> declared parameter types of the last Parse sent under it
@@ -160,7 +162,25 @@ func int16s(l []any) []int16 {
 }
 
 // Bytes renders one abstract client message. It may enrich m.
+// Bytes concretises one abstract message. A running digest of everything
+// produced is kept: runs that must send the same bytes (the segmentations of
+// one stream) are compared on it.
 func (c *Concretiser) Bytes(m M) []byte {
+	b := c.bytes0(m)
+	for _, x := range b {
+		c.InDig = (c.InDig ^ uint64(x)) * 1099511628211
+	}
+	c.InDig = (c.InDig ^ 0xff) * 1099511628211
+	c.Ins = append(c.Ins, c.InDig)
+	LastInputs = c.Ins
+	return b
+}
+
+// LastInputs: the running input digest after each message of the concretiser
+// used last (the drivers are sequential).
+var LastInputs []uint64
+
+func (c *Concretiser) bytes0(m M) []byte {
 	switch S(m, "t") {
 	case "Startup":
 		var kvs [][2]string
